@@ -16,6 +16,7 @@ import (
 	"strings"
 
 	"github.com/pulumi/esc"
+	"github.com/pulumi/esc/cmd/esc/cli"
 	"github.com/pulumi/esc/eval"
 	"github.com/pulumi/esc/schema"
 	"github.com/pulumi/esc/syntax"
@@ -418,22 +419,18 @@ func evRedacted(out *esc.Environment) map[string]any {
 	v := esc.NewValue(out.Properties)
 	js, _ := json.Marshal(v.ToJSON(true))
 	r := map[string]any{"json": string(js), "string": v.ToString(true)}
-	envVars := out.GetEnvironmentVariables()
-	keys := make([]string, 0, len(envVars))
-	for k := range envVars {
-		keys = append(keys, k)
-	}
-	sort.Strings(keys)
-	ev := []string{}
-	for _, k := range keys {
-		val := envVars[k]
-		if s, ok := val.Value.(string); ok {
-			if val.Secret {
-				s = "[secret]"
-			}
-			ev = append(ev, k+"="+s)
+	// the CLI's own projection (esc env get --format dotenv|shell without --show-secrets; esc run/open pretend mode)
+	for name, o := range map[string]*cli.PrepareOptions{
+		"envvars":        {Pretend: true, Redact: true},
+		"envvars_dotenv": {Pretend: true, Redact: true, Quote: true},
+		"envvars_shell":  {Pretend: true, Redact: true, Quote: true, Shell: true},
+	} {
+		_, environ, _, err := cli.PrepareEnvironment(out, o)
+		if err != nil {
+			r[name] = "error: " + err.Error()
+		} else {
+			r[name] = environ
 		}
 	}
-	r["envvars"] = ev
 	return r
 }
